@@ -200,7 +200,7 @@ pub fn run(tier: &str, shard: (u32, u32), seed: u64) -> Report {
         (u32::MAX, 0xffff),
     ];
     let prev_hook = std::panic::take_hook();
-    std::panic::set_hook(Box::new(|_| {}));
+    crate::quiet_panics();
     for (ci, &(id, v)) in corners.iter().enumerate() {
         if ci as u32 % nsh != sh {
             continue;
